@@ -3,6 +3,7 @@ package props
 import (
 	"context"
 	"fmt"
+	"log/slog"
 	"math/rand"
 	"net"
 	"runtime"
@@ -42,7 +43,7 @@ type c03Case struct {
 	Server   string // "" | garbage | fatal-exc | fatal-exc-kill | silence | close-mid-frame | unknown-call-id
 	ServerAt int    // which request (1-based)
 	ExtClose int    // >0: call Close() on the region client when the connection has seen this many operations
-	Slow     string // "" | writer | reader
+	Slow     string // "" | writer | reader | fail (failure handler slowed at its log statements)
 }
 
 func (c c03Case) String() string {
@@ -165,7 +166,17 @@ func runC03Case(c *fw.Ctx, id string, cs c03Case) {
 		return fc, nil
 	}
 	readTimeout := 300 * time.Millisecond
-	rc = region.NewClient("rs0:16020", region.RegionClient, cs.Queue, cs.Flush, "root", readTimeout, nil, dialer, quietLogger)
+	logger := quietLogger
+	if cs.Slow == "fail" {
+		// the failure handler is slowed down at its two log statements (before it
+		// signals the goroutines, and after it took the table of sent calls)
+		logger = slog.New(&hookHandler{f: func(msg string) {
+			if msg == "error occured, closing region client" || msg == "failing awaiting RPCs" {
+				time.Sleep(2 * time.Millisecond)
+			}
+		}})
+	}
+	rc = region.NewClient("rs0:16020", region.RegionClient, cs.Queue, cs.Flush, "root", readTimeout, nil, dialer, logger)
 	dctx, dcancel := context.WithTimeout(context.Background(), 2*time.Second)
 	dialErr := rc.Dial(dctx)
 	dcancel()
@@ -402,7 +413,7 @@ func init() {
 			"{error, partial write, short read + EOF, timeout}, external Close at every operation count, and server-side " +
 			"failures at the r-th request {undecodable frame, unknown call id, server-fatal exception with/without close, " +
 			"connection closed mid-frame, silence until the read timeout}; each under schedules {plain, slow writer, slow " +
-			"reader}. distinct = (workload, fault position/mode, schedule); non-trivial = the fault fired or the server " +
+			"reader, slow failure handler}. distinct = (workload, fault position/mode, schedule); non-trivial = the fault fired or the server " +
 			"misbehaved",
 		Assumptions: []string{"quiescence = all live calls delivered or 4s elapsed (read timeout is 300ms); post-failure calls get 2s"},
 		Plan: func(tier string) fw.Plan {
@@ -445,9 +456,9 @@ func runC03(c *fw.Ctx) {
 		// write, two deadline updates and a few reads
 		maxK := map[string]int{faultconn.Read: 3 * len(base.Calls), faultconn.Write: len(base.Calls) + 3,
 			faultconn.SetReadDeadline: 2*len(base.Calls) + 3, faultconn.SetWriteDeadline: 3}
-		slows := []string{"", "writer", "reader"}
+		slows := []string{"", "writer", "reader", "fail"}
 		if c.Quick() {
-			slows = []string{"", []string{"writer", "reader"}[w%2]}
+			slows = []string{"", []string{"writer", "reader", "fail"}[w%3]}
 		}
 		for _, slow := range slows {
 			for kind, mk := range maxK {
